@@ -119,19 +119,14 @@ theorem model_charge_once {σ : Type} (w : World α) (m : Model) (ε : α) (subs
 theorem model_accountant_fixed_at_construction (w₀ : World α) (explicit : Option Nat) :
     (construct w₀ explicit).acc = explicit.getD w₀.dflt := rfl
 
-/-- ★ a sub-query handed a throw-away accountant charges none of the caller's accountants (scalar sub-query) -/
-theorem throwAway_scalar_frame (fresh : Acc α) (ε : α) (b : Body ρ) (w : World α) :
-    (withThrowAway fresh (fun ex => scalarQ ex ε b) w).accs = w.accs := by
-  unfold withThrowAway
-  simp only
-  apply List.ext_getElem?
-  intro j
-  by_cases hj : j < w.accs.length
-  · rw [List.getElem?_take_of_lt hj]
-    rw [scalarQ_frame _ _ _ _ j (Nat.ne_of_lt hj)]
-    simp [List.getElem?_append_left hj]
-  · have hj' : w.accs.length ≤ j := Nat.le_of_not_lt hj
-    rw [List.getElem?_eq_none (by simp [scalarQ_length]; omega), List.getElem?_eq_none hj']
+/-- ★ sub-queries handed a throw-away `BudgetAccountant()` — a scalar tool, or a tool with `axis=` as in
+`StandardScaler` (`nanmean`/`nanvar`, axis 0), `LinearRegression` (`mean`, axis 0) and `PCA` (`mean`, axis 0) — charge
+none of the caller's accountants, so they satisfy the frame hypothesis of `model_charge_once` -/
+theorem throwAway_frame (fresh : Acc α) (ε : α) (b : Body ρ) (bodies : List (Body ρ)) (w : World α) :
+    (withThrowAway fresh (fun ex => scalarQ ex ε b) w).accs = w.accs ∧
+    (withThrowAway fresh (fun ex => wrapAxisQ ex ε bodies) w).accs = w.accs :=
+  ⟨withThrowAway_frame fresh _ (fun k => scalarQ_frameAt k ε b) w,
+   withThrowAway_frame fresh _ (fun k => wrapAxisQ_frameAt k ε bodies) w⟩
 
 end generic
 
